@@ -150,7 +150,10 @@ void WorkerPool<T, Neighbors, N>::run(
         if (can_subdivide)
         {
             Tape::Handle next_tape;
-            if (task.vol) {
+            // Only tree types with shared empty/filled singletons (DC) can take the
+            // VolTree's word for it: simplex and hybrid cells need a leaf (subspace
+            // vertices) even when empty/filled, and only evalInterval allocates it.
+            if (task.vol && T::hasSingletons()) {
                 auto i = task.vol->check(t->region);
                 if (i == Interval::EMPTY || i == Interval::FILLED) {
                     t->setType(i);
